@@ -539,7 +539,7 @@ def handlerB (fn : String) : Option Handler :=
             if res != "pass" then res else
             -- tight: every face is touched by a scaled corner
             let R := qaabb2 r
-            if (List.range 2).all fun i => pts.any (fun p => p.get i == R.maxs.get i) && pts.any (fun p => p.get i == R.mins.get i)
+            if (List.range 2).all fun i => pts.any (fun p => leTol (R.maxs.get i) (p.get i) tol9) && pts.any (fun p => leTol (p.get i) (R.mins.get i) tol9)
             then "pass" else "fail not-tight"
         | none => "skip bad-args" }
   | _ => none
